@@ -44,7 +44,7 @@ elif rnd == 'r5':
              "Prefer the less-travelled code the property also covers — the Java, Dart and Python generators (including asyncio/tornado), the html and json targets, option-dependent paths (-r/recursive generation, use_vendor, go:slim, go:async, package prefixes, "
              "topic delimiter and other generator options), the HTTP and STOMP transports, the simple server, the scope (pub/sub) client paths, error/exception paths rather than success paths, and interactions between two files or two functions that each look fine alone. "
              "A restructuring commit in which one detail went wrong (helper extracted, guard moved, loop rewritten, condition inverted, two helpers merged) is the preferred disguise, as in real regressions.")
-elif rnd in ('r6', 'r7', 'r9'):
+elif rnd in ('r6', 'r7', 'r9', 'r10'):
     import os, re, glob
     ideas = []
     for d in sorted(glob.glob(f'/verif/seeded/{pid}*')):
